@@ -144,6 +144,27 @@ def check(ctx):
         ok = isinstance(x, ast.Call) and isinstance(x.func, ast.Attribute) and x.func.attr == 'to_list' and \
             isinstance(x.func.value, ast.Name) and x.func.value.id == 'self' and len(x.args) == 1 and \
             isinstance(x.args[0], ast.Name) and x.args[0].id == param and not x.keywords
+        if not ok and to_list is not None:
+            # the same lines without going through to_list: to_list is `return list(<X>)` / `return <X>` of the very expression
+            # that is joined here (both read the same line source)
+            tl_body = [st for st in to_list.node.body if not (isinstance(st, ast.Expr) and isinstance(st.value, ast.Constant))]
+            tl_params = [a.arg for a in to_list.params()]
+            if len(tl_body) == 1 and isinstance(tl_body[0], ast.Return) and tl_body[0].value is not None and \
+                    len(tl_params) == 2 and not any(isinstance(y, (ast.Yield, ast.YieldFrom)) for y in ast.walk(to_list.node)):
+                tv = tl_body[0].value
+                inner = tv.args[0] if isinstance(tv, ast.Call) and isinstance(tv.func, ast.Name) and tv.func.id in ('list', 'tuple') \
+                    and len(tv.args) == 1 and not tv.keywords else tv
+
+                class Ren(ast.NodeTransformer):
+                    def visit_Name(s_, node):
+                        return ast.copy_location(ast.Name(id=param, ctx=node.ctx), node) if node.id == tl_params[1] else node
+                import copy as _copy
+                same = ast.unparse(Ren().visit(_copy.deepcopy(inner))) == ast.unparse(x) or \
+                    ast.unparse(Ren().visit(_copy.deepcopy(tv))) == ast.unparse(x)
+                if same:
+                    run.holds('C18.agree', to_str.module.name, to_str.qualname, r,
+                              'to_str joins the very line source that to_list returns as a list', node=r)
+                    continue
         run.add('C18.agree', to_str.module.name, to_str.qualname, r, ok,
                 'to_str = EOL.join(self.to_list(contents)) + EOL' if ok else
                 f'the joined lines are `{ast.unparse(x)[:60]}`, not self.to_list({param})', node=r)
@@ -388,8 +409,8 @@ def _prefix_rule(ctx, ind: ClassInfo):
     n = 0
     for indentor in ('SPACES', 'TAB'):
         for bullets in (True, False):
-            asm = {'self.indentor': ast.parse(f'Indentor.{indentor}', mode='eval').body, 'self.bullet_list': TRUTHY if bullets else None}
-            view = prog.add_synthetic(post, residual(prog, post, {}, assume=asm), f'{indentor}-bullets-{bullets}')
+            from .shared import post_init_views
+            view = post_init_views(ctx)[f'{indentor}-bullets-{bullets}']
             label = f'{indentor.lower()} indentation, {"with" if bullets else "without"} bullet list'
             if any(isinstance(x, (ast.If, ast.For, ast.While, ast.Try)) for x in view.node.body):
                 run.error('C18.prefix', post.module.name, post.qualname, label,
